@@ -43,6 +43,26 @@ pub fn space_shapes(c: &SpaceCfg, f: &mut dyn FnMut(&str, &Val)) {
             f("a:shape-d2w", x);
         }
     }
+    if !c.thorough {
+        // depth 3, narrow: every depth-2 shape that has exactly one child (struct of one field,
+        // container of one element / entry) wrapped once more in each container position
+        let mut w = Vec::new();
+        for v in &d2 {
+            let narrow = match v {
+                Val::Struct(f) => f.len() == 1,
+                Val::List(_, e) | Val::Set(_, e) => e.len() == 1,
+                Val::Map(_, _, e) => e.len() == 1,
+                _ => false,
+            };
+            if narrow && v.depth() == 2 {
+                w.clear();
+                val::wrap_all(v, &mut w);
+                for x in &w {
+                    f("a:shape-d3-narrow", x);
+                }
+            }
+        }
+    }
     if c.thorough {
         let mut w = Vec::new();
         for v in &d2 {
